@@ -229,6 +229,91 @@ func structuralStage(props []string) (fails []*Case, calls int) {
 	return fails, calls
 }
 
+// hasEmptyComponent: the value is empty or blank, or one of its comma- or solidus-separated
+// components is: no CSS value space contains such a value.
+func hasEmptyComponent(v string) bool {
+	if strings.TrimSpace(v) == "" {
+		return true
+	}
+	for _, sep := range []string{",", "/"} {
+		if strings.Contains(v, sep) {
+			for _, piece := range strings.Split(v, sep) {
+				if strings.TrimSpace(piece) == "" {
+					return true
+				}
+			}
+		}
+	}
+	return false
+}
+
+// emptyComponentStage: the empty value, blank values, and accepted seeds joined by a doubled comma
+// or solidus (or starting / ending in one) must be rejected by every handler.
+func emptyComponentStage(props []string) (fails []*Case, calls int) {
+	pool := append(append([]string{}, cssTokens...), "arial", "'times'", "1px", "red", "left", "1", "none", "auto", "a")
+	for _, prop := range props {
+		h := css.GetDefaultHandler(prop)
+		cands := []string{"", " ", "\t", "  ", ",", "/", ", ,", "/ /", " , "}
+		n := 0
+		for _, seed := range pool {
+			calls++
+			if seed == "" || hasEmptyComponent(seed) || !h(seed) {
+				continue
+			}
+			cands = append(cands, seed+",,"+seed, seed+",", ","+seed, seed+", ,"+seed, seed+"//"+seed, "/"+seed, seed+"/")
+			if n++; n >= 6 {
+				break
+			}
+		}
+		for _, v := range cands {
+			calls++
+			if hasEmptyComponent(v) && h(v) {
+				fails = append(fails, &Case{Prop: "C18", Kind: "empty-component", Strs: []BStr{BStr(prop), BStr(v)},
+					Clause: "C18: the default handler for " + q(prop) + " accepts " + q(v) + ", which is empty or has an empty component"})
+				break
+			}
+		}
+	}
+	return fails, calls
+}
+
+// nonASCIICaseStage: CSS keywords are ASCII case-insensitive. An accepted seed in which a k or i
+// is replaced by U+212A (Kelvin sign) or U+0130 - both of which Go's strings.ToLower turns into
+// the ASCII letter - is not a word of any value space and must be rejected.
+func nonASCIICaseStage(props []string) (fails []*Case, calls int) {
+	pool := append(append([]string{}, cssTokens...), handlerLiterals()...)
+	pool = append(pool, "pink", "black", "white", "khaki", "inline", "italic", "skew(1deg)", "block", "disc", "thick", "thin", "solid", "initial", "inherit", "lightpink", "break-word", "keep-all")
+	for _, prop := range props {
+		h := css.GetDefaultHandler(prop)
+	seeds:
+		for _, seed := range pool {
+			calls++
+			if !strings.ContainsAny(seed, "kiKI") || !h(seed) {
+				continue
+			}
+			for i := 0; i < len(seed); i++ {
+				var repl string
+				switch seed[i] {
+				case 'k', 'K':
+					repl = "\u212a"
+				case 'i', 'I':
+					repl = "\u0130"
+				default:
+					continue
+				}
+				v := seed[:i] + repl + seed[i+1:]
+				calls++
+				if h(v) {
+					fails = append(fails, &Case{Prop: "C18", Kind: "non-ascii-case", Strs: []BStr{BStr(prop), BStr(v)},
+						Clause: "C18: the default handler for " + q(prop) + " accepts " + q(v) + ": a keyword with a non-ASCII letter that only Unicode lower-casing turns into the ASCII one"})
+					break seeds
+				}
+			}
+		}
+	}
+	return fails, calls
+}
+
 // positionStage: two keywords of the same axis are not a position.
 func positionStage() (fails []*Case, calls int) {
 	for _, prop := range []string{"background-position", "object-position", "perspective-origin", "transform-origin"} {
